@@ -105,6 +105,11 @@ def check_routes(ctx, op, rec, det, tag=""):
             ctx.violation("%s:%s:nothing" % (op, route), "%s%s: lazy view has a value but route %s is Nothing" % (op, tag, route), det)
             n += 1
             continue
+        # element type: the arrays the evaluator allocates itself (E, C) must have the element type the lazy view yields (a result
+        # buffer typed from something else narrows / converts silently); supplied outputs (O, OC) have the caller's element type
+        if route in ("E", "C") and r.get("tag") and v.get("tag") and r["tag"] != v["tag"] and not (r["tag"] in ("b1", "u1") and v["tag"] in ("b1", "u1")):
+            ctx.violation("%s:%s:element_type" % (op, route), "%s%s: route %s has element type %s, the lazy view yields %s" % (op, tag, route, r["tag"], v["tag"]), det)
+            n += 1
         if not V.same_array(r, v):
             sym = "shape" if (r.get("shape") != v.get("shape") or bool(r.get("scalar")) != bool(v.get("scalar"))) else "element"
             if route in ("O", "OC") and sym == "element" and any(x in (V_SENT, 113) for x in (r.get("data") or [])):
